@@ -2,14 +2,14 @@
 SPECIFICATION Spec
 CONSTANTS
   Kinds = {"cache", "ttl", "ecs", "fwdopt", "up"}
-  MaxLen = 4
+  MaxLen = 3
   Mals = {"ok", "ok1x"}
-  CSizes = {512, 4096}
-  COptSets <- COptsAll
+  CSizes = {4096}
+  COptSets <- COptsSome
   CVers = {0, 1}
   WithNoOpt = TRUE
   UMsgs <- UMsgsB
-  UOptSets <- UOptsAll
+  UOptSets <- UOptsSome
   Transports = {"udp"}
   Caches = {"empty", "own"}
   Dev = {}
